@@ -26,6 +26,11 @@ CHECKS = {
          "Every history over 13 fixed-argument queries, both trigonal switches and deepcopy, on 4 structures (generated R-3 water in H and R axes, the same loaded from CIF text, bundled R3c example): the search runs until no new canonical state appears (digest of vars(obj) incl. all memo attributes), so histories of every length are covered, not just length 4; each of the ~2800 transitions is executed on the real object and compared with a fresh crystal, repeated, and checked not to modify the public state.",
          "Digest soundness assumes methods only read state reachable from vars(obj); floats are rounded to 1e-9 in the digest (never in the oracle); queries are always issued with the same arguments, as the property stipulates.",
          "2/C14"),
+ "C04": ("exploration",
+         "bounded-exhaustive enumeration of rigid-molecule packings (setting x Z' kind x centre grid x orientation) against an exact image model with a reference-decided precondition filter",
+         "Continuous quantifier: the claim is bounded-exhaustive over a finite lattice of packings - every first-listed setting plus 40 further numbers in all their settings (thorough: all 530), molecules {H2O, CO, CO2, CH4} incl. index orders that force the bond walk from higher to lower indices, Z' in {1, 2 equal, 2 different}, centres straddling 0..3 cell faces: partition, lattice-translate, internal geometry, centre of mass, count, coincidence with the exact images, unique-molecule cover, labelling and periodic bond graph with cell offsets.",
+         "Cases violating the property's precondition (contacts < bonding threshold + 0.5 A, special positions) are skipped and counted; covalent radii and masses read from the library table as data.",
+         "2/C04"),
 }
 
 ALL = ["C%02d" % i for i in range(1, 21)]
